@@ -820,8 +820,9 @@ class CFG:
         if isinstance(other, regular_expression.Regex):
             other = other.to_epsilon_nfa().to_deterministic()
         elif isinstance(other, FiniteAutomaton):
-            if not other.is_deterministic():
-                other = other.to_deterministic()
+            # Also for a deterministic-shaped NFA or epsilon NFA: the
+            # construction needs the transition function of a DFA
+            other = other.to_deterministic()
         else:
             raise NotImplementedError
         if other.is_empty():
